@@ -11,7 +11,12 @@ one diagnostic layer per set, emitted as ODX and loaded by the real loader.  Per
     alphabet (every byte of a coded constant / NRC list of the layer, plus 00 and FF) and for the own encodings of
     every request and response over small value alphabets;
   * DiagLayer.decode_response(P, R) for every own request encoding R and every response encoding P made for R;
-  * DiagLayer.service_groups[sid] for all 256 sids.
+  * DiagLayer.service_groups[sid] for all 256 sids;
+  * call sequences: ALL sequences of 3 calls over a per-layer op alphabet (per service decode(request), decode(response),
+    decode_response(response, request)), each on its own freshly loaded layer object; every result must equal the
+    result of the same call made first on a fresh object (order, multiplicity and values) -- the cached prefix tree
+    must not be changed by lookups.
+A third alphabet has sibling services with one SID told apart by a PHYS-CONST identifier which the responses echo.
 Oracle: odxmodel.refdispatch (three-valued, independent).  See the module docstring there.
 """
 from __future__ import annotations
@@ -46,6 +51,10 @@ def ccn(name: str, v: int, bits: int, byte: Optional[int] = None, bit: Optional[
     if bit is not None:
         d["bit"] = bit
     return d
+
+
+def physc(name: str, dop: str, const: int) -> Dict[str, Any]:
+    return {"t": "PHYS-CONST", "name": name, "dop": dop, "const": const}
 
 
 def val(name: str, dop: str, byte: Optional[int] = None) -> Dict[str, Any]:
@@ -108,6 +117,15 @@ SHAPES.update({
 })
 WIDE_NAMES = ["W16", "W16b", "W24", "N44", "N412"]
 WIDE_ALPHABET = WIDE_NAMES + ["S10b", "S22F190"]
+# third alphabet: sibling services share the SID and are told apart by a PHYS-CONST identifier in the request; their
+# responses echo it with a MATCHING-REQUEST-PARAM (which is checked through the constant prefix only)
+SHAPES.update({
+    "P1001": ([cc("sid", 0x22), physc("did", "u16", 0x1001)], "pr62e2", "nrA"),                  # 22 10 01
+    "P1002": ([cc("sid", 0x22), physc("did", "u16", 0x1002)], "pr62e2", "nrB"),                  # 22 10 02
+    "P10b": ([cc("sid", 0x22), physc("hi", "u8", 0x10), val("x", "u8")], "pr62e2", None),        # 22 10 xx (echo straddles)
+})
+PC_NAMES = ["P1001", "P1002", "P10b"]
+PC_ALPHABET = PC_NAMES + ["S22w", "S22F190"]
 VALUES = {"u8": [0x00, 0x01, 0x5A, 0xFF], "u16": [0x0000, 0x0102, 0xF190, 0xA55A]}
 RESP_VALUES = {"u8": [0x00, 0x5A]}
 
@@ -430,6 +448,104 @@ def check_layer(layer: Any, ref: refdispatch.RefLayer, shapes: List[str], ngnr: 
             report(part, key, case_of(shapes, ngnr, "decode_response", P, R, svc), detail + f" [request {R.hex()} of {svc}]")
 
 
+# ---------------------------------------------------------------------------------------------
+# call sequences: the result of a call does not depend on the calls made before on the same layer object
+# ---------------------------------------------------------------------------------------------
+Op = Tuple[str, bytes, Optional[bytes]]
+
+
+def seq_mode(nservices: int, ngnr: int, quick: bool) -> int:
+    """ops per service for the call-sequence exploration of a layer (0 = none)"""
+    if nservices <= 2:
+        if not quick:
+            return 3
+        return 3 if ngnr == 0 else 0
+    return 2 if (not quick and ngnr == 0) else 0
+
+
+def seq_ops(ref: refdispatch.RefLayer, per_service: int) -> List[Op]:
+    """per service: decode(R), decode_response(P, R), decode(P) with R = the request encoding for the SECOND value of
+    the alphabets (01 / 0102: collides with the nested constants), P = its first response made for R"""
+    ops: List[Op] = []
+    for s in ref.svcs:
+        va = value_assignments(ref, s["request"], VALUES)
+        R = ref.encode(s["request"], va[min(1, len(va) - 1)])
+        P = None
+        for c in list(s.get("pos", [])) + list(s.get("neg", [])):
+            try:
+                P = ref.encode(c, value_assignments(ref, c, RESP_VALUES)[0], R)
+                break
+            except refdispatch.Envelope:
+                continue
+        cand: List[Op] = [("decode", R, None)]
+        if P is not None:
+            cand += [("decode_response", P, R), ("decode", P, None)]
+        for op in cand[:per_service]:
+            if op not in ops:
+                ops.append(op)
+    return ops
+
+
+def run_op(layer: Any, op: Op) -> Tuple[str, Any]:
+    api, M, R = op
+    obs = observe(layer.decode, M) if api == "decode" else observe(layer.decode_response, M, R)
+    if obs[0] != "ok":
+        return (obs[0], None)  # (the text of an error may list candidates; only the kind is compared)
+    return ("ok", [(s, c, dict(pd)) for s, c, pd in obs[1]])
+
+
+def history_diff(op: Op, fresh: Tuple[str, Any], got: Tuple[str, Any]) -> Optional[Tuple[str, str]]:
+    if fresh == got:
+        return None
+    call = f"{op[0]}({op[1].hex()}" + (f", {op[2].hex()})" if op[2] is not None else ")")
+
+    def show(o: Tuple[str, Any]) -> str:
+        return o[0] if o[0] != "ok" else str([(s, c) for s, c, _ in o[1]])
+    if fresh[0] != got[0]:
+        return "C06/history/outcome-kind-differs", f"{call}: first call on a fresh layer: {show(fresh)}; after earlier calls: {show(got)}"
+    if {(s, c) for s, c, _ in fresh[1]} == {(s, c) for s, c, _ in got[1]} and sorted(map(repr, fresh[1])) != sorted(map(repr, got[1])):
+        return "C06/history/number-of-interpretations-differs", f"{call}: first call on a fresh layer: {show(fresh)}; after earlier calls: {show(got)}"
+    if {(s, c) for s, c, _ in fresh[1]} != {(s, c) for s, c, _ in got[1]}:
+        return "C06/history/reported-services-differ", f"{call}: first call on a fresh layer: {show(fresh)}; after earlier calls: {show(got)}"
+    return "C06/history/result-differs", f"{call}: first call on a fresh layer: {fresh[1]}; after earlier calls: {got[1]}"
+
+
+def fresh_layers(shapes: List[str], ngnr: int, n: int) -> Any:
+    """generator of n freshly loaded, never used layer objects of the same description"""
+    batch = 200
+    for start in range(0, n, batch):
+        k = min(batch, n - start)
+        db, specs = build([(tuple(shapes), ngnr)] * k)
+        for spec in specs:
+            yield db.diag_layers[spec["name"]]
+
+
+def seq_case(shapes: List[str], ngnr: int, calls: List[Op], at: int) -> Dict[str, Any]:
+    return {"services": list(shapes), "gnrs": ngnr, "op": "sequence", "at": at, "msg": "".join(c[1].hex() for c in calls[:at + 1]),
+            "calls": [[c[0], c[1].hex(), None if c[2] is None else c[2].hex()] for c in calls[:at + 1]]}
+
+
+def check_sequences(ref: refdispatch.RefLayer, shapes: List[str], ngnr: int, per_service: int, part: Part) -> None:
+    ops = seq_ops(ref, per_service)
+    n = len(ops)
+    layers = fresh_layers(shapes, ngnr, n + n ** 3)
+    fresh = {op: run_op(next(layers), op) for op in ops}
+    part.count("sequence_layers")
+    for seq in itertools.product(ops, repeat=3):
+        layer = next(layers)
+        part.count("call_sequences")
+        for i, op in enumerate(seq):
+            got = run_op(layer, op)
+            part.count("evaluations")
+            part.count("sequence_calls")
+            d = history_diff(op, fresh[op], got)
+            if d is not None:
+                report(part, d[0], seq_case(shapes, ngnr, list(seq), i), d[1] + f"; calls so far: {[(c[0], c[1].hex()) for c in seq[:i]]}")
+                break
+    if any(o[0] == "ok" and len(o[1]) > 1 for o in fresh.values()):
+        part.count("sequence_layers_with_shared_messages")
+
+
 def same_expect(a: Dict[str, Dict[str, Any]], b: Dict[str, Dict[str, Any]]) -> bool:
     keys = ("status", "own", "gnr", "required", "ambiguous")
     return set(a) == set(b) and all(a[s][k] == b[s][k] for s in a for k in keys)
@@ -490,14 +606,22 @@ def wide_sets(maxsize: int) -> List[Tuple[str, ...]]:
     return out
 
 
+def pc_sets(maxsize: int) -> List[Tuple[str, ...]]:
+    """all ordered sets over the third alphabet that contain at least one PHYS-CONST shape"""
+    out: List[Tuple[str, ...]] = []
+    for n in range(1, maxsize + 1):
+        out.extend(t for t in itertools.permutations(PC_ALPHABET, n) if set(t) & set(PC_NAMES))
+    return out
+
+
 def build(confs: List[Tuple[Tuple[str, ...], int]]) -> Tuple[Any, List[Dict[str, Any]]]:
     specs = [layer_spec(f"L{i}", list(shapes), ngnr) for i, (shapes, ngnr) in enumerate(confs)]
     db = emit.load_db({"containers": [{"name": "C", "layers": specs}]})
     return db, specs
 
 
-def unit_fn(unit: Tuple[int, List[Tuple[Tuple[str, ...], int]], bool]) -> Part:
-    maxlen, confs, selftest = unit
+def unit_fn(unit: Tuple[int, List[Tuple[Tuple[str, ...], int]], bool, bool]) -> Part:
+    maxlen, confs, selftest, quick = unit
     part = Part()
     import odxtools.exceptions as oe
     oe.strict_mode = True
@@ -511,6 +635,9 @@ def unit_fn(unit: Tuple[int, List[Tuple[Tuple[str, ...], int]], bool]) -> Part:
             check_layer(layer, ref, list(shapes), ngnr, maxlen, part, selftest=(selftest and i == 0))
             if selftest and i == 0:
                 part.count("reference_selftest_layers")
+            mode = seq_mode(len(shapes), ngnr, quick)
+            if mode and not any(k.startswith("C06/prefix-tree/") for k in part.viol):
+                check_sequences(ref, list(shapes), ngnr, mode, part)
             for sh in shapes:
                 part.add("shapes", sh)
             part.add("gnr_configs", ngnr)
@@ -549,21 +676,27 @@ def samples(ctx: Ctx) -> None:
 def run(ctx: Ctx) -> None:
     maxset = 2 if ctx.quick else 3
     maxlen = 3 if ctx.quick else 4
-    sets = service_sets(maxset) + wide_sets(maxset)
+    sets = service_sets(maxset) + wide_sets(maxset) + pc_sets(maxset)
     confs = [(s, g) for s in sets for g in (0, 1, 2)]
     # big layers first, chunks sized by expected work (alphabet^maxlen grows with the number of services)
     confs.sort(key=lambda c: (-len(c[0]), c[1], c[0]))
-    units: List[Tuple[int, List[Tuple[Tuple[str, ...], int]], bool]] = []
-    chunk = {1: 36, 2: 12, 3: 8} if ctx.quick else {1: 36, 2: 24, 3: 6}
+    units: List[Tuple[int, List[Tuple[Tuple[str, ...], int]], bool, bool]] = []
+    chunk = {1: 36, 2: 6, 3: 8} if ctx.quick else {1: 36, 2: 8, 3: 4}
     i = 0
     while i < len(confs):
         n = chunk[len(confs[i][0])]
         # (reference self-test on the first layer of every unit (quick) / every 5th unit (thorough))
-        units.append((maxlen, confs[i:i + n], ctx.quick or len(units) % 5 == 0))
+        units.append((maxlen, confs[i:i + n], ctx.quick or len(units) % 5 == 0, ctx.quick))
         i += n
     ctx.bounds = {"service_shapes": SHAPE_NAMES, "services_per_layer": f"1..{maxset} (all ordered sets)",
                   "second_alphabet": {"shapes": WIDE_ALPHABET, "sets": f"all ordered sets of 1..{maxset} containing one of {WIDE_NAMES}",
                                       "what": "leading constant = one 16 / 24 bit CODED-CONST, 4+4 and 4+12 bit splits"},
+                  "third_alphabet": {"shapes": PC_ALPHABET, "sets": f"all ordered sets of 1..{maxset} containing one of {PC_NAMES}",
+                                     "what": "siblings with the same SID told apart by a PHYS-CONST identifier, echoed by the responses"},
+                  "call_sequences": "all sequences of 3 calls over the op alphabet of a layer (per service: decode(request), decode(response), "
+                                    "decode_response(response, request)), each sequence on its own freshly loaded layer object; "
+                                    + ("layers with <= 2 services and no GNR" if ctx.quick else
+                                       "layers with <= 2 services; layers with 3 services and no GNR with 2 ops per service"),
                   "global_negative_responses": "0, 1 (with MATCHING-REQUEST-PARAM), 2 (second one without)",
                   "layers": len(confs), "message_length": f"all byte strings of length 0..{maxlen} over the layer's constants + 00, FF",
                   "own_encodings": {"request u8": VALUES["u8"], "request u16": VALUES["u16"], "response u8": RESP_VALUES["u8"], "nrc": "every listed value"},
@@ -578,6 +711,8 @@ def run(ctx: Ctx) -> None:
         "a global negative response is MAY for a service whose own response already matches (odxtools tries them only if the service fails)",
         "multiplicity of reported Messages is DON'T-CARE (compared as sets of (service, coding object))",
         "decode_response: only the service that was asked is demanded; other reported services are only checked against MUST-NOT",
+        "call sequences: results are compared exactly (order, multiplicity, values) with the first call on a fresh layer object; "
+        "for errors only the kind is compared",
         "descriptions: whole-byte A_UINT32 constants/values, IDENTICAL compu methods; a request without any parameter is not in the alphabet",
     ]
     pmap(ctx, unit_fn, units)
@@ -586,7 +721,7 @@ def run(ctx: Ctx) -> None:
     ctx.counts["traces_validated_against_impl"] = ctx.counts.get("decode_calls", 0) + ctx.counts.get("decode_response_calls", 0)
     ctx.counts["states"] = ctx.counts.get("layers", 0)
     ctx.counts["transitions"] = ctx.counts.get("evaluations", 0)
-    ctx.guard("every service shape used", ctx.sets.get("shapes", set()) == set(SHAPE_NAMES) | set(WIDE_NAMES))
+    ctx.guard("every service shape used", ctx.sets.get("shapes", set()) == set(SHAPE_NAMES) | set(WIDE_NAMES) | set(PC_NAMES))
     ctx.guard("all three GNR configurations used", ctx.sets.get("gnr_configs", set()) == {0, 1, 2})
     ctx.guard("decode both reported and refused messages", ctx.counts.get("decode_reports", 0) > 100 and ctx.counts.get("decode_errors", 0) > 100)
     ctx.guard("MUST, MAY and MUST-NOT services all seen", ctx.sets.get("status", set()) == {MUST, MAY, MUSTNOT})
@@ -594,6 +729,8 @@ def run(ctx: Ctx) -> None:
               {"MATCH", "NOMATCH:prefix", "NOMATCH:short", "NOMATCH:nrc", "MAYBE:trailing bytes",
                "MAYBE:coded constant behind the prefix differs"} <= ctx.sets.get("classes", set()))
     ctx.guard("own responses demanded through their request > 100", ctx.counts.get("own_responses_must", 0) > 100)
+    ctx.guard("call sequences explored > 1000, on layers whose services share messages too",
+              ctx.counts.get("call_sequences", 0) > 1000 and ctx.counts.get("sequence_layers_with_shared_messages", 0) > 10)
     ctx.guard("own requests demanded > 100", ctx.counts.get("own_requests_must", 0) > 100)
 
 
@@ -611,6 +748,15 @@ def replay(case: Any) -> List[Tuple[str, str]]:
             layer._prefix_tree  # noqa
         except Exception as ex:  # noqa
             return [(f"C06/prefix-tree/raises-{type(ex).__name__}", str(ex)[:200])]
+        if case["op"] == "sequence":
+            calls: List[Op] = [(a, bytes.fromhex(m), None if r is None else bytes.fromhex(r)) for a, m, r in case["calls"]]
+            layers = fresh_layers(shapes, ngnr, 2)
+            used, fresh_layer = next(layers), next(layers)
+            got = None
+            for op in calls:
+                got = run_op(used, op)
+            d = history_diff(calls[-1], run_op(fresh_layer, calls[-1]), got)
+            return [d] if d else []
         M = bytes.fromhex(case["msg"])
         if case["op"] == "groups":
             bad = groups_diff(layer, ref)
